@@ -30,6 +30,16 @@ package imports
 //@   loop 1
 //@     invariant [none_so_far] forall a string :: a in visited ==> a != firstSegment(imp)
 
+// C14, defect D5 (recorded in /verif/known_findings.json, not repaired): the imports that the generator asks for on its own
+// behalf - "fmt" in the error wrapper of a function token, the helper packages in the templates - go through the same alias
+// table as the user's references, so a user alias equal to their first path segment (fmt, github.com) captures them.
+// For every alias table the input validators accept these two paths should denote themselves; they do not.
+//@ lemma generator_imports_denote_themselves(i *imports)
+//@   property C14
+//@   requires i != nil && aliasesWellFormed(i.prefixes)
+//@   ensures [fmt_denotes_fmt] i.decorateImport("fmt") == "fmt"
+//@   ensures [helpers_denote_helpers] i.decorateImport("github.com/gontainer/gontainer-helpers/v3/container") == "github.com/gontainer/gontainer-helpers/v3/container"
+
 //@ func (*imports).RegisterPrefixAlias
 //@   property C14
 //@   requires i.prefixes != nil
